@@ -5,7 +5,7 @@ From CgreenVerif Require Import Defs Runner Lemmas_Props Mocks CStr Lemmas_Const
 From CgreenVerif.Gen Require Import Facts.
 
 Extraction "../ocaml/model.ml"
-  Runner.run_suite Runner.run_single Runner.exit_ok Runner.own Runner.tests_of Runner.test_steps
+  Runner.run_suite Runner.run_two Runner.run_single Runner.exit_ok Runner.own Runner.tests_of Runner.test_steps
   Runner.full_steps Runner.exec Runner.fw_init Runner.trace
   Lemmas_Props.ok_treeb
   BinInt.Z.add BinInt.Z.mul BinInt.Z.div BinInt.Z.modulo BinInt.Z.opp BinInt.Z.eqb BinInt.Z.ltb
